@@ -145,18 +145,13 @@ Section Driver.
              end
     end.
 
-  (* same loop, also reporting how many tokens were consumed when it stopped *)
-  Fixpoint run_count (fuel : nat) (c : config) (consumed : nat) : outcome * nat :=
+  (* same loop, also reporting the input that was not consumed when it stopped *)
+  Fixpoint run_rest (fuel : nat) (c : config) : outcome * list P :=
     match fuel with
-    | O => (OOutOfFuel, consumed)
+    | O => (OOutOfFuel, snd c)
     | S f => match step c with
-             | inl c' =>
-                 let consumed' := match c, c' with
-                                  | (_, _, inp), (_, _, inp') =>
-                                      if Nat.ltb (length inp') (length inp) then S consumed else consumed
-                                  end in
-                 run_count f c' consumed'
-             | inr o => (o, consumed)
+             | inl c' => run_rest f c'
+             | inr o => (o, snd c)
              end
     end.
 
@@ -165,7 +160,8 @@ Section Driver.
   Definition parse (fuel : nat) (w : list P) : outcome := run fuel (initial w).
 
   (* number of `next()` calls made on the source iterator (see the header) *)
-  Definition pulls (fuel : nat) (w : list P) : nat := S (snd (run_count fuel (initial w) 0)).
+  Definition pulls (fuel : nat) (w : list P) : nat :=
+    S (length w - length (snd (run_rest fuel (initial w)))).
 
   Fixpoint yield (t : tree) : list P :=
     match t with
